@@ -1,9 +1,533 @@
-(* Proofs about GC/GCModel.v (C10). *)
-From Coq Require Import ZArith List Bool Arith Lia.
+(* Proofs about GC/GCModel.v (C10).  Statements are fixed by Properties_C10.v. *)
+From Coq Require Import ZArith List Bool Arith Lia PeanoNat Sorted.
 Require Import Verif.Gen.Gen_epoch Verif.Gen.Gen_bounded_queue Verif.Gen.Gen_garbage_collector.
 Require Import Verif.Conc.Machine Verif.GC.GCModel.
 Import ListNotations.
 Local Open Scope Z_scope.
+Local Arguments Z.add : simpl never.
+Local Arguments Z.sub : simpl never.
+Local Arguments Z.of_nat : simpl never.
+Local Arguments Z.to_nat : simpl never.
+Local Arguments Nat.pow : simpl never.
 
+(* ---- vocabulary used by the statements ---- *)
 Definition Reach (kc : bool -> nat -> nat -> bool) (bits : nat) (progs : list (list op)) (s : st) : Prop :=
   reachable st (gstep kc) (init bits progs) s.
+
+Definition single_stop (progs : list (list op)) : Prop :=
+  forall t1 p1 i1 t2 p2 i2, nth_error progs t1 = Some p1 -> nth_error p1 i1 = Some OStop ->
+                            nth_error progs t2 = Some p2 -> nth_error p2 i2 = Some OStop -> t1 = t2 /\ i1 = i2.
+
+(* stop() has returned => every task queued in front of its marker has been called *)
+Definition stop_complete (s : st) : Prop :=
+  forall t th k n, nth_error (threads s) t = Some th -> In (RStop true k n) (results th) ->
+  forall j x, (j < k)%nat -> nth_error (qall s) j = Some (Some x) -> is_marker x = false -> In x (map fst (calls s)).
+
+Definition no_regions (progs : list (list op)) : Prop := forall p, In p progs -> ~ In OLock p.
+
+(* ---- the generated formulas, restated (each proof breaks if the C++ expression changes) ---- *)
+Lemma tick_mono : 0 <= tick_inc.                                   Proof. unfold tick_inc; lia. Qed.
+Lemma tick_fresh : forall g, g < retire_epoch (tick_ret + g).
+Proof. intro g. unfold retire_epoch, tick_ret. lia. Qed.
+Lemma tick_bound : forall g, retire_epoch (tick_ret + g) <= g + tick_inc.
+Proof. intro g. unfold retire_epoch, tick_ret, tick_inc. lia. Qed.
+Lemma retire_push_id : forall e, retire_push_epoch e = e.          Proof. reflexivity. Qed.
+Lemma lock_first_spec : forall n, lock_first (n + lock_inc) = true -> n = 0.
+Proof. intro n. unfold lock_first, lock_inc. rewrite Z.eqb_eq. lia. Qed.
+Lemma lock_published_spec : forall v, lock_published v = v.        Proof. reflexivity. Qed.
+Lemma lwm_step_le : forall m v, (if lwm_update m v then lwm_assign v else m) <= m /\ (if lwm_update m v then lwm_assign v else m) <= v.
+Proof. intros m v. unfold lwm_update, lwm_assign. destruct (Z.gtb_spec m v); lia. Qed.
+Lemma lwm_ret_spec : forall m, lwm_ret m = m.                      Proof. reflexivity. Qed.
+Lemma not_yet_spec : forall e l, not_yet_reclaimable e l = false -> e <= l.
+Proof. intros e l. unfold not_yet_reclaimable. destruct (Z.gtb_spec e l); [discriminate | lia]. Qed.
+Lemma need_consume_spec : forall i n, need_consume (Z.of_nat i) (Z.of_nat n) = true -> i = n.
+Proof. intros i n. unfold need_consume. rewrite Z.eqb_eq. lia. Qed.
+Lemma reclaim_more_spec : forall i n, reclaim_more (Z.of_nat i) (Z.of_nat n) = Nat.ltb i n.
+Proof. intros i n. unfold reclaim_more. destruct (Nat.ltb_spec i n); [apply Z.ltb_lt | apply Z.ltb_ge]; lia. Qed.
+Lemma index_advance_spec : forall r, Z.to_nat (index_advance (Z.of_nat r)) = r.
+Proof. intro r. unfold index_advance. apply Nat2Z.id. Qed.
+Lemma index_consts : Z.to_nat index_init = O /\ Z.to_nat index_after_consume = O.  Proof. split; reflexivity. Qed.
+Lemma running_consts : running_init = true /\ consume_running_init = true /\ running_after_marker = false.
+Proof. repeat split; reflexivity. Qed.
+Lemma is_marker_spec : forall x, is_marker x = Z.eqb (tk_epoch x) STOP_EPOCH.
+Proof. intro x. unfold is_marker, is_stop_marker, STOP_EPOCH. destruct (Z.eqb (tk_epoch x) 18446744073709551615); reflexivity. Qed.
+
+(* ---- lists ---- *)
+Lemma nth_set_same : forall A (l : list A) t x y, nth_error l t = Some y -> nth_error (set_nth t x l) t = Some x.
+Proof. induction l as [|a l IH]; intros [|t] x y H; cbn in *; try discriminate; eauto. Qed.
+Lemma nth_set_other : forall A (l : list A) t t' x, t' <> t -> nth_error (set_nth t x l) t' = nth_error l t'.
+Proof. induction l as [|a l IH]; intros [|t] [|t'] x H; cbn in *; try reflexivity; try congruence. apply IH. congruence. Qed.
+Lemma set_nth_length : forall A (l : list A) t x, length (set_nth t x l) = length l.
+Proof. induction l as [|a l IH]; intros [|t] x; cbn; auto. Qed.
+Lemma In_set_nth : forall A (l : list A) t x y, In y (set_nth t x l) -> y = x \/ In y l.
+Proof. induction l as [|a l IH]; intros [|t] x y H; cbn in *; try tauto; destruct H as [H|H]; auto. apply IH in H. tauto. Qed.
+Lemma In_skipn : forall A n (l : list A) x, In x (skipn n l) -> In x l.
+Proof. induction n as [|n IH]; intros [|a l] x H; cbn in *; auto. Qed.
+Lemma In_firstn : forall A n (l : list A) x, In x (firstn n l) -> In x l.
+Proof. induction n as [|n IH]; intros [|a l] x H; cbn in *; try tauto. destruct H; auto. Qed.
+Lemma nth_error_lookup : forall A (l : list A) t t' x, 
+  nth_error (set_nth t x l) t' = if Nat.eqb t' t then (match nth_error l t with Some _ => Some x | None => None end) else nth_error l t'.
+Proof.
+  intros. destruct (Nat.eqb_spec t' t) as [->|N]; [|apply nth_set_other; assumption].
+  destruct (nth_error l t) eqn:E; [eapply nth_set_same; eauto|].
+  apply nth_error_None. rewrite set_nth_length. apply nth_error_None. assumption.
+Qed.
+
+(* ---- case analysis of one step ---- *)
+Ltac split_ifs H :=
+  repeat match type of H with
+  | context [if ?c then _ else _] => destruct c eqn:?
+  | context [match nth_error ?l ?i with _ => _ end] => destruct (nth_error l i) eqn:?
+  end.
+
+Ltac step_cases H :=
+  unfold gstep in H;
+  match type of H with context [nth_error (threads ?s) ?t] =>
+    let th := fresh "th" in let Hth := fresh "Hth" in
+    destruct (nth_error (threads s) t) as [th|] eqn:Hth;
+    [ unfold step_thread in H;
+      let Hpc := fresh "Hpc" in let Hop := fresh "Hop" in
+      destruct (tpc th) eqn:Hpc;
+      [ let o := fresh "o" in destruct (nth_error (prog th) (opi th)) as [o|] eqn:Hop; [destruct o|] | .. ];
+      cbv zeta in H; split_ifs H; try discriminate H; 
+      try (match type of H with context [match cp (col s) with _ => _ end] => destruct (cp (col s)) eqn:Hcp; try discriminate H end);
+      injection H as <-
+    | destruct (Nat.eqb t (length (threads s))) eqn:?; [|discriminate H];
+      unfold step_coll in H; cbv zeta in H;
+      let Hcp := fresh "Hcp" in destruct (cp (col s)) eqn:Hcp; split_ifs H; try discriminate H; injection H as <- ]
+  end.
+
+
+(* ---- consume_reclaim_task ---- *)
+Definition got (s : st) : list task :=
+  pub_prefix (Z.to_nat (consume_num (batch_of (Z.of_nat (cap s))))) (skipn (qhead s) (qall s)).
+
+Lemma chunk_cb_spec : forall l r k r' d, chunk_cb l r = (k, r', d) ->
+  l = k ++ d /\ Forall (fun x => is_marker x = false) k /\
+  ((d = [] /\ r' = r) \/ (exists m d', d = m :: d' /\ is_marker m = true /\ r' = running_after_marker)).
+Proof.
+  induction l as [|x l IH]; intros r k r' d H; cbn in H.
+  - injection H as <- <- <-. repeat split; auto.
+  - destruct (is_marker x) eqn:M.
+    + injection H as <- <- <-. repeat split; auto. right. eauto.
+    + destruct (chunk_cb l r) as [[k0 r0] d0] eqn:E. injection H as <- <- <-.
+      destruct (IH _ _ _ _ E) as (-> & F & D). repeat split; auto.
+Qed.
+
+Lemma consume_spec : forall s c, exists k1 d1 k2 d2 r1 r2 n1,
+  consume s c = with_consumed s (qhead s + length (got s))%nat
+     {| cp := CScan 0 lwm_init; crunning := r2; cindex := Z.to_nat index_after_consume; ctasks := k1 ++ k2; joinable := joinable c |}
+     (gone s ++ d1 ++ d2) /\
+  chunk_cb (firstn n1 (got s)) consume_running_init = (k1, r1, d1) /\ chunk_cb (skipn n1 (got s)) r1 = (k2, r2, d2).
+Proof.
+  intros s c. unfold consume. fold (got s).
+  set (n1 := first_chunk_len s _ _).
+  destruct (chunk_cb (firstn n1 (got s)) consume_running_init) as [[k1 r1] d1] eqn:E1.
+  destruct (chunk_cb (skipn n1 (got s)) r1) as [[k2 r2] d2] eqn:E2.
+  exists k1, d1, k2, d2, r1, r2, n1. auto.
+Qed.
+
+Lemma pub_prefix_nth : forall n l i x, nth_error (pub_prefix n l) i = Some x -> nth_error l i = Some (Some x).
+Proof.
+  induction n as [|n IH]; intros l i x H; [destruct i; discriminate|].
+  destruct l as [|[y|] l]; cbn in H; try (destruct i; discriminate).
+  destruct i; cbn in *; [congruence | auto].
+Qed.
+Lemma pub_prefix_in : forall n l x, In x (pub_prefix n l) -> In (Some x) l.
+Proof. intros n l x H. apply In_nth_error in H as [i H]. apply pub_prefix_nth in H. eapply nth_error_In; eauto. Qed.
+Lemma got_in : forall s x, In x (got s) -> In (Some x) (qall s).
+Proof. intros s x H. apply pub_prefix_in in H. eapply In_skipn; eauto. Qed.
+
+(* ---- never early: invariant ---- *)
+Definition slot_le (a b : slot) : Prop :=
+  (sgen a < sgen b)%nat \/ (sgen b = sgen a /\ (sopen a = true -> sopen b = true /\ ver b = ver a)).
+Definition slots_rel (l l' : list slot) : Prop :=
+  forall a sl, nth_error l a = Some sl -> exists sl', nth_error l' a = Some sl' /\ slot_le sl sl'.
+
+Lemma slot_le_refl : forall a, slot_le a a.  Proof. intro a. right. auto. Qed.
+Lemma slots_rel_refl : forall l, slots_rel l l.  Proof. intros l a sl H. eauto using slot_le_refl. Qed.
+Lemma slots_rel_set : forall l t sl sl', nth_error l t = Some sl -> slot_le sl sl' -> slots_rel l (set_nth t sl' l).
+Proof.
+  intros l t sl sl' H L a x Ha. destruct (Nat.eq_dec a t) as [->|N].
+  - exists sl'. split; [eapply nth_set_same; eauto | congruence].
+  - exists x. rewrite nth_set_other by assumption. auto using slot_le_refl.
+Qed.
+
+Definition ok_eb (sl : list slot) (e : Z) (blk : list (nat * nat)) : Prop :=
+  forall a g, In (a, g) blk -> exists x, nth_error sl a = Some x /\
+    ((g < sgen x)%nat \/ (g = sgen x /\ sopen x = true /\ ver x < e)).
+
+Lemma ok_eb_rel : forall l l' e blk, slots_rel l l' -> ok_eb l e blk -> ok_eb l' e blk.
+Proof.
+  intros l l' e blk R H a g I. destruct (H a g I) as (x & Hx & C). destruct (R a x Hx) as (x' & Hx' & L).
+  exists x'. split; [assumption|]. destruct C as [C|(-> & O & V)]; destruct L as [L|(L1 & L2)]; try (left; lia).
+  right. destruct (L2 O) as (O' & V'). rewrite V'. auto.
+Qed.
+
+Definition blk_open_l (l : list slot) (b : nat * nat) : bool :=
+  match nth_error l (fst b) with Some sl => sopen sl && Nat.eqb (sgen sl) (snd b) | None => false end.
+Lemma blk_open_eq : forall s b, blk_open s b = blk_open_l (slots s) b.  Proof. reflexivity. Qed.
+
+Lemma blk_open_rel : forall l l' e blk b, slots_rel l l' -> ok_eb l e blk -> In b blk -> blk_open_l l' b = true -> blk_open_l l b = true.
+Proof.
+  intros l l' e blk [a g] R H I O. destruct (H a g I) as (x & Hx & C). destruct (R a x Hx) as (x' & Hx' & L).
+  unfold blk_open_l in *. cbn [fst snd] in *. rewrite Hx' in O. rewrite Hx.
+  apply andb_true_iff in O as [O1 O2]. apply Nat.eqb_eq in O2.
+  destruct C as [C|(-> & C & _)]; destruct L as [L|(L1 & L2)]; try lia.
+  rewrite C, Nat.eqb_refl. reflexivity.
+Qed.
+
+Lemma ok_eb_open_lt : forall l e blk b, ok_eb l e blk -> In b blk -> blk_open_l l b = true ->
+  exists x, nth_error l (fst b) = Some x /\ ver x < e.
+Proof.
+  intros l e blk [a g] H I O. destruct (H a g I) as (x & Hx & C). exists x. split; [assumption|].
+  unfold blk_open_l in O. cbn [fst snd] in *. rewrite Hx in O. apply andb_true_iff in O as [O1 O2]. apply Nat.eqb_eq in O2.
+  destruct C as [C|(_ & _ & C)]; [lia | assumption].
+Qed.
+
+Definition ok_pc (l : list slot) (p : pc) : Prop :=
+  match p with PTicket e blk => ok_eb l e blk | PPublish x _ => ok_eb l (tk_epoch x) (tk_blk x) | _ => True end.
+
+Record InvA (s : st) : Prop := {
+  a_len : length (slots s) = length (threads s);
+  a_n0 : forall t th sl, nth_error (threads s) t = Some th -> nth_error (slots s) t = Some sl ->
+           (forall v, tpc th = PLockStore v -> sopen sl = false /\ v <= gver s /\ 1 <= lt sl) /\ (sopen sl = true -> 1 <= lt sl);
+  a_n1 : forall sl, In sl (slots s) -> sopen sl = true -> ver sl <= gver s;
+  a_e1 : forall t th, nth_error (threads s) t = Some th -> ok_pc (slots s) (tpc th);
+  a_e2 : forall x, In (Some x) (qall s) -> ok_eb (slots s) (tk_epoch x) (tk_blk x);
+  a_c1 : forall x, In x (ctasks (col s)) -> In (Some x) (qall s);
+  a_q2 : forall t th x b, nth_error (threads s) t = Some th -> tpc th = PPublish x b -> nth_error (qall s) (tk_ticket x) = Some None;
+  a_q2' : forall t1 t2 th1 th2 x1 x2 b1 b2, nth_error (threads s) t1 = Some th1 -> nth_error (threads s) t2 = Some th2 ->
+            tpc th1 = PPublish x1 b1 -> tpc th2 = PPublish x2 b2 -> tk_ticket x1 = tk_ticket x2 -> t1 = t2;
+  a_s1 : forall i m, cp (col s) = CScan i m -> forall x, In x (ctasks (col s)) -> forall b, In b (tk_blk x) ->
+            (fst b < i)%nat -> blk_open s b = true -> m < tk_epoch x;
+  a_s2 : forall lwm r, cp (col s) = CReclaim lwm r -> forall x, In x (ctasks (col s)) -> forall b, In b (tk_blk x) ->
+            blk_open s b = true -> lwm < tk_epoch x;
+  a_early : early s = false }.
+
+Lemma open_from_spec : forall l i a g, In (a, g) (open_from i l) ->
+  exists sl, nth_error l (a - i) = Some sl /\ (i <= a)%nat /\ sopen sl = true /\ sgen sl = g.
+Proof.
+  induction l as [|x l IH]; intros i a g H; cbn in H; [contradiction|].
+  destruct (sopen x) eqn:O.
+  - destruct H as [H|H].
+    + injection H as <- <-. exists x. rewrite Nat.sub_diag. auto.
+    + destruct (IH _ _ _ H) as (sl & N & L & R1 & R2). exists sl. replace (a - i)%nat with (S (a - S i)) by lia. cbn. repeat split; auto; lia.
+  - destruct (IH _ _ _ H) as (sl & N & L & R1 & R2). exists sl. replace (a - i)%nat with (S (a - S i)) by lia. cbn. repeat split; auto; lia.
+Qed.
+
+Ltac simp := cbn [gver slots qall qhead qbits col calls early gone threads upd_thread with_gver with_slots with_qall with_col
+                   with_consumed with_call with_restart take_ticket cp crunning cindex ctasks joinable set_cp
+                   tpc prog opi results goto finish_op ver lt sopen sgen fst snd] in *.
+Ltac use_consume s :=
+  let k1 := fresh "k1" in let d1 := fresh "d1" in let k2 := fresh "k2" in let d2 := fresh "d2" in
+  let r1 := fresh "r1" in let r2 := fresh "r2" in let n1 := fresh "n1" in
+  let Hc := fresh "Hc" in let E1 := fresh "E1" in let E2 := fresh "E2" in
+  destruct (consume_spec s (col s)) as (k1 & d1 & k2 & d2 & r1 & r2 & n1 & Hc & E1 & E2); rewrite Hc in *; clear Hc.
+(* the thread that moved / another thread, after upd_thread *)
+Ltac thread_lookup H t2 t :=
+  rewrite nth_error_lookup in H; destruct (Nat.eqb_spec t2 t) as [->|?].
+
+Section Proofs.
+Variable kc : bool -> nat -> nat -> bool.
+
+Lemma invA_init : forall bits progs, InvA (init bits progs).
+Proof.
+  intros bits progs. constructor; cbn; try (intros; contradiction || discriminate); try reflexivity.
+  - rewrite !map_length. reflexivity.
+  - intros t th sl H1 H2. apply nth_error_In in H1, H2. apply in_map_iff in H1 as (p & <- & _). apply in_map_iff in H2 as (q & <- & _).
+    cbn. split; [intros v H; discriminate | intro H; discriminate].
+  - intros sl H. apply in_map_iff in H as (p & <- & _). cbn. discriminate.
+  - intros t th H. apply nth_error_In in H. apply in_map_iff in H as (p & <- & _). exact I.
+  - intros t th x b H E. apply nth_error_In in H. apply in_map_iff in H as (p & <- & _). discriminate.
+  - intros t1 t2 th1 th2 x1 x2 b1 b2 H _ E. apply nth_error_In in H. apply in_map_iff in H as (p & <- & _). discriminate.
+Qed.
+
+Lemma stepA_len : forall s t s', InvA s -> gstep kc s t = Some s' -> length (slots s') = length (threads s').
+Proof.
+  intros s t s' I H. pose proof (a_len _ I). step_cases H; try use_consume s; simp; rewrite ?set_nth_length; assumption.
+Qed.
+
+Lemma stepA_n1 : forall s t s', InvA s -> gstep kc s t = Some s' -> forall sl, In sl (slots s') -> sopen sl = true -> ver sl <= gver s'.
+Proof.
+  intros s t s' I H. pose proof (a_n1 _ I) as N1. pose proof tick_mono.
+  step_cases H; try use_consume s; simp; try exact N1; intros sl Hi Ho;
+    try (apply In_set_nth in Hi as [->|Hi]; simp; [|auto]); try (specialize (N1 _ Hi Ho); lia).
+  all: try discriminate.
+  all: try (apply N1; [eapply nth_error_In; eauto | assumption]).
+  all: match goal with Hs : nth_error (slots _) _ = Some _ |- _ => destruct (a_n0 _ I _ _ _ Hth Hs) as [P _]; destruct (P _ Hpc) as (_ & Q & _); rewrite lock_published_spec; exact Q end.
+Qed.
+
+Lemma stepA_n0 : forall s t s', InvA s -> gstep kc s t = Some s' ->
+  forall t2 th2 sl2, nth_error (threads s') t2 = Some th2 -> nth_error (slots s') t2 = Some sl2 ->
+    (forall v, tpc th2 = PLockStore v -> sopen sl2 = false /\ v <= gver s' /\ 1 <= lt sl2) /\ (sopen sl2 = true -> 1 <= lt sl2).
+Proof.
+  intros s t s' I H t2 th2 sl2 H1 H2. pose proof tick_mono.
+  step_cases H; try use_consume s; simp.
+  all: try (exact (a_n0 _ I _ _ _ H1 H2)).
+  all: revert H1 H2; rewrite ?nth_error_lookup; destruct (Nat.eqb_spec t2 t) as [->|N]; intros H1 H2;
+    [ rewrite ?Hth in H1; injection H1 as <-; simp
+    | destruct (a_n0 _ I _ _ _ H1 H2) as [P Q]; split; [intros v9 Hv; destruct (P v9 Hv) as (? & ? & ?); repeat split; [auto|lia|auto] | exact Q] ].
+  all: repeat match goal with Hs : nth_error (slots _) _ = Some _, H2 : match nth_error (slots _) _ with _ => _ end = Some _ |- _ =>
+                rewrite Hs in H2; injection H2 as <-; simp end.
+  all: try (split; [intros v9 Hv; discriminate Hv|]).
+  all: try (match goal with Hs : nth_error (slots _) _ = Some _ |- _ => destruct (a_n0 _ I _ _ _ Hth Hs) as [P Q] end).
+  all: try (match goal with H2 : nth_error (slots _) _ = Some _ |- _ => destruct (a_n0 _ I _ _ _ Hth H2) as [P Q] end).
+  all: try exact Q.
+  - apply lock_first_spec in Heqb. assert (sopen s0 = false) by (destruct (sopen s0); [specialize (Q eq_refl); lia | reflexivity]).
+    split; [intros v9 Hv; injection Hv as <-; repeat split; [assumption | lia | unfold lock_inc; lia] | intro; congruence].
+  - intro O. specialize (Q O). unfold lock_inc. lia.
+  - intro; discriminate.
+  - intro O. specialize (Q O). unfold unlock_last in *. unfold unlock_dec. destruct (Z.eqb_spec (lt s0) 1); [discriminate | lia].
+  - intros _. destruct (P _ Hpc) as (_ & _ & L). exact L.
+Qed.
+
+Lemma stepA_slots_rel : forall s t s', InvA s -> gstep kc s t = Some s' -> slots_rel (slots s) (slots s').
+Proof.
+  intros s t s' I H. step_cases H; try use_consume s; simp; try apply slots_rel_refl.
+  all: eapply slots_rel_set; [eassumption|]; unfold slot_le; simp; try (right; split; [reflexivity|tauto]); try (left; lia).
+  match goal with Hs : nth_error (slots _) _ = Some _ |- _ => destruct (a_n0 _ I _ _ _ Hth Hs) as [P _]; destruct (P _ Hpc) as (O & _) end.
+  right. split; [reflexivity|]. intro. congruence.
+Qed.
+
+Lemma In_set_none : forall A (l : list (option A)) k x y, nth_error l k = Some None -> In (Some x) l -> In (Some x) (set_nth k (Some y) l).
+Proof.
+  intros A l k x y N I. apply In_nth_error in I as [j J]. assert (j <> k) by congruence.
+  eapply nth_error_In. rewrite nth_set_other; eauto.
+Qed.
+Lemma In_app_none : forall A (l : list (option A)) x, In (Some x) (l ++ [None]) -> In (Some x) l.
+Proof. intros A l x H. apply in_app_or in H as [H|[H|[]]]; [assumption | discriminate]. Qed.
+
+Lemma stepA_e2 : forall s t s', InvA s -> gstep kc s t = Some s' -> forall x, In (Some x) (qall s') -> ok_eb (slots s') (tk_epoch x) (tk_blk x).
+Proof.
+  intros s t s' I H x Hx. pose proof (stepA_slots_rel _ _ _ I H) as R. pose proof (a_e2 _ I) as E2.
+  step_cases H; try use_consume s; simp; try (eapply ok_eb_rel; [exact R|]; apply E2; assumption).
+  1,2: eapply ok_eb_rel; [exact R|]; apply E2; apply In_app_none; assumption.
+  all: apply In_set_nth in Hx as [Hx|Hx]; [injection Hx as ->; pose proof (a_e1 _ I _ _ Hth) as E; rewrite Hpc in E; exact E | apply E2; assumption].
+Qed.
+
+Lemma stepA_e1 : forall s t s', InvA s -> gstep kc s t = Some s' -> forall t2 th2, nth_error (threads s') t2 = Some th2 -> ok_pc (slots s') (tpc th2).
+Proof.
+  intros s t s' I H t2 th2 H1. pose proof (stepA_slots_rel _ _ _ I H) as R. pose proof (a_e1 _ I) as E1.
+  assert (F : forall th, ok_pc (slots s) (tpc th) -> ok_pc (slots s') (tpc th)).
+  { intros th0 O. destruct (tpc th0); cbn in *; auto; eapply ok_eb_rel; eauto. }
+  step_cases H; try use_consume s; simp; try (apply F; eapply E1; eassumption).
+  all: revert H1; rewrite nth_error_lookup; destruct (Nat.eqb_spec t2 t) as [->|N]; intros H1;
+    [ rewrite ?Hth in H1; injection H1 as <-; simp; try exact Logic.I | apply (F th2); eapply E1; eassumption ].
+  all: try (cbn; exact Logic.I).
+  all: try (destruct stop; cbn; exact Logic.I).
+  - (* tick *) cbn [ok_pc]. intros a g Hin. apply open_from_spec in Hin as (sl & N & _ & O & G). rewrite Nat.sub_0_r in N.
+    exists sl. split; [assumption|]. right. repeat split; auto.
+    pose proof (a_n1 _ I sl (nth_error_In _ _ N) O). pose proof (tick_fresh (gver s)). lia.
+  - (* stop marker *) cbn [ok_pc stop_task tk_blk]. intros a g [].
+  - (* ticket *) cbn [ok_pc tk_epoch tk_blk]. rewrite retire_push_id. pose proof (E1 _ _ Hth) as E. rewrite Hpc in E. exact E.
+Qed.
+
+Lemma nth_app_none : forall A (l : list (option A)) k, nth_error l k = Some None -> nth_error (l ++ [None]) k = Some None.
+Proof. intros A l k H. rewrite nth_error_app1; [assumption|]. apply nth_error_Some. congruence. Qed.
+Lemma nth_app_last : forall A (l : list (option A)), nth_error (l ++ [None]) (length l) = Some None.
+Proof. intros A l. rewrite nth_error_app2 by lia. rewrite Nat.sub_diag. reflexivity. Qed.
+
+Lemma stepA_q2 : forall s t s', InvA s -> gstep kc s t = Some s' ->
+  (forall t2 th2 x b, nth_error (threads s') t2 = Some th2 -> tpc th2 = PPublish x b -> nth_error (qall s') (tk_ticket x) = Some None) /\
+  (forall t1 t2 th1 th2 x1 x2 b1 b2, nth_error (threads s') t1 = Some th1 -> nth_error (threads s') t2 = Some th2 ->
+            tpc th1 = PPublish x1 b1 -> tpc th2 = PPublish x2 b2 -> tk_ticket x1 = tk_ticket x2 -> t1 = t2).
+Proof.
+  intros s t s' I H. pose proof (a_q2 _ I) as Q2. pose proof (a_q2' _ I) as Q2'.
+  assert (LT : forall t2 th2 x b, nth_error (threads s) t2 = Some th2 -> tpc th2 = PPublish x b -> (tk_ticket x < length (qall s))%nat).
+  { intros. apply nth_error_Some. erewrite Q2; eauto. discriminate. }
+  step_cases H; try use_consume s; simp; try (split; assumption).
+  all: split; [ intros t2 th2 x9 b9 H1 E; revert H1; rewrite nth_error_lookup; destruct (Nat.eqb_spec t2 t) as [->|N]; intros H1;
+                [ rewrite ?Hth in H1; injection H1 as <-; simp; try discriminate E | ]
+              | intros t1 t2 th1 th2 x1 x2 b1 b2 H1 H2 E1 E2 ET; revert H1 H2; rewrite !nth_error_lookup;
+                destruct (Nat.eqb_spec t1 t) as [->|N1]; destruct (Nat.eqb_spec t2 t) as [->|N2]; intros H1 H2; try reflexivity;
+                rewrite ?Hth in *; try (injection H1 as <-); try (injection H2 as <-); simp; try discriminate; try (eapply Q2'; eassumption) ].
+  all: try (eapply Q2; eassumption).
+  all: try (apply nth_app_none; eapply Q2; eassumption).
+  all: try (injection E as <- <-; cbn [tk_ticket stop_task]; apply nth_app_last).
+  all: try (injection E1 as <- <-; cbn [tk_ticket stop_task] in ET; specialize (LT _ _ _ _ H2 E2); lia).
+  all: try (injection E2 as <- <-; cbn [tk_ticket stop_task] in ET; specialize (LT _ _ _ _ H1 E1); lia).
+  all: try (destruct stop; simp; discriminate).
+  all: try (rewrite nth_set_other; [eapply Q2; eassumption|]; intro EQ; apply N; symmetry; eapply (Q2' _ _ _ _ _ _ _ _ Hth H1 Hpc E); symmetry; exact EQ).
+Qed.
+
+Lemma chunk_kept_in : forall l r k r' d x, chunk_cb l r = (k, r', d) -> In x k -> In x l.
+Proof. intros l r k r' d x H I. apply chunk_cb_spec in H as (-> & _). apply in_or_app. auto. Qed.
+
+Lemma stepA_c1 : forall s t s', InvA s -> gstep kc s t = Some s' -> forall x, In x (ctasks (col s')) -> In (Some x) (qall s').
+Proof.
+  intros s t s' I H x Hx. pose proof (a_c1 _ I) as C1.
+  step_cases H; try use_consume s; simp; try (apply C1; assumption); try contradiction.
+  1,2: apply in_or_app; left; apply C1; assumption.
+  1,2: (eapply In_set_none; [eapply (a_q2 _ I); eassumption | apply C1; assumption]).
+  apply got_in. apply in_app_or in Hx as [Hx|Hx]; [eapply In_firstn | eapply In_skipn]; eapply chunk_kept_in; eauto.
+Qed.
+
+Lemma scan_frame : forall s l', InvA s -> slots_rel (slots s) l' ->
+  forall i m, cp (col s) = CScan i m -> forall x, In x (ctasks (col s)) -> forall b, In b (tk_blk x) ->
+    (fst b < i)%nat -> blk_open_l l' b = true -> m < tk_epoch x.
+Proof.
+  intros s l' I R i m Hc x Hx b Hb Hi O. eapply (a_s1 _ I); eauto. rewrite blk_open_eq.
+  eapply blk_open_rel; eauto. apply (a_e2 _ I). apply (a_c1 _ I). assumption.
+Qed.
+Lemma reclaim_frame : forall s l', InvA s -> slots_rel (slots s) l' ->
+  forall lwm r, cp (col s) = CReclaim lwm r -> forall x, In x (ctasks (col s)) -> forall b, In b (tk_blk x) ->
+    blk_open_l l' b = true -> lwm < tk_epoch x.
+Proof.
+  intros s l' I R lwm r Hc x Hx b Hb O. eapply (a_s2 _ I); eauto. rewrite blk_open_eq.
+  eapply blk_open_rel; eauto. apply (a_e2 _ I). apply (a_c1 _ I). assumption.
+Qed.
+
+Lemma stepA_s1 : forall s t s', InvA s -> gstep kc s t = Some s' ->
+  forall i m, cp (col s') = CScan i m -> forall x, In x (ctasks (col s')) -> forall b, In b (tk_blk x) ->
+    (fst b < i)%nat -> blk_open s' b = true -> m < tk_epoch x.
+Proof.
+  intros s t s' I H i m Hc x Hx b Hb Hi O. pose proof (stepA_slots_rel _ _ _ I H) as R. rewrite blk_open_eq in O.
+  step_cases H; try use_consume s; simp; try discriminate Hc;
+    try (eapply (scan_frame s); [exact I | exact R | eassumption ..]).
+  all: try (rewrite Hcp in Hc; discriminate Hc).
+  all: try (injection Hc as <- <-; lia).
+  (* the scan loads slot i0 *)
+  all: injection Hc as <- <-; pose proof (lwm_step_le m0 (ver s0)) as L; rewrite Heqb1 in L; destruct L as [L1 L2];
+    assert (Hi' : (fst b < i0)%nat \/ fst b = i0) by lia; destruct Hi' as [Hi'|Hi'];
+    [ assert (m0 < tk_epoch x); [eapply (a_s1 _ I); eauto | lia]
+    | assert (ver s0 < tk_epoch x); [|lia];
+      destruct (ok_eb_open_lt (slots s) (tk_epoch x) (tk_blk x) b) as (y & Hy & V); auto;
+      [ apply (a_e2 _ I); apply (a_c1 _ I); assumption | rewrite Hi' in Hy; congruence ] ].
+Qed.
+
+Lemma blk_open_bound : forall l b, blk_open_l l b = true -> (fst b < length l)%nat.
+Proof. intros l b H. unfold blk_open_l in H. destruct (nth_error l (fst b)) eqn:E; [|discriminate]. apply nth_error_Some. congruence. Qed.
+
+Lemma stepA_s2 : forall s t s', InvA s -> gstep kc s t = Some s' ->
+  forall lwm r, cp (col s') = CReclaim lwm r -> forall x, In x (ctasks (col s')) -> forall b, In b (tk_blk x) ->
+    blk_open s' b = true -> lwm < tk_epoch x.
+Proof.
+  intros s t s' I H lwm r Hc x Hx b Hb O. pose proof (stepA_slots_rel _ _ _ I H) as R. rewrite blk_open_eq in O.
+  step_cases H; try use_consume s; simp; try discriminate Hc;
+    try (eapply (reclaim_frame s); [exact I | exact R | eassumption ..]).
+  all: try (rewrite Hcp in Hc; discriminate Hc).
+  all: try (destruct (sleep_needed _); discriminate Hc).
+  all: try ((* a reclaimer call *) injection Hc as <- <-; eapply (a_s2 _ I); eauto; fail).
+  (* end of the scan *) injection Hc as <- <-. rewrite lwm_ret_spec. eapply (a_s1 _ I); eauto.
+  apply blk_open_bound in O. apply nth_error_None in Heqo. lia.
+Qed.
+
+Lemma stepA_early : forall s t s', InvA s -> gstep kc s t = Some s' -> early s' = false.
+Proof.
+  intros s t s' I H. pose proof (a_early _ I) as E.
+  step_cases H; try use_consume s; simp; try exact E.
+  all: rewrite E; cbn [orb]; destruct (existsb (blk_open s) (tk_blk t0)) eqn:X; [exfalso | reflexivity];
+    apply existsb_exists in X as (b & Hb & O);
+    match goal with N : not_yet_reclaimable _ _ = false |- _ => apply not_yet_spec in N end;
+    assert (lwm < tk_epoch t0); [|lia]; eapply (a_s2 _ I); eauto; eapply nth_error_In; eauto.
+Qed.
+
+Theorem invA_step : forall s t s', InvA s -> gstep kc s t = Some s' -> InvA s'.
+Proof.
+  intros s t s' I H. destruct (stepA_q2 _ _ _ I H). constructor;
+    eauto using stepA_len, stepA_n0, stepA_n1, stepA_e1, stepA_e2, stepA_c1, stepA_s1, stepA_s2, stepA_early.
+Qed.
+
+Lemma invA_reach : forall bits progs s, Reach kc bits progs s -> InvA s.
+Proof. intros bits progs s R. eapply inv_reachable; eauto using invA_init, invA_step. Qed.
+
+
+(* ---- the bounded queue: a pusher is blocked exactly while its ticket is a full capacity ahead of the pop index ---- *)
+Lemma publish_enabled_iff : forall s t th x b, nth_error (threads s) t = Some th -> tpc th = PPublish x b ->
+  (gstep kc s t = None <-> (qhead s + cap s <= tk_ticket x)%nat).
+Proof.
+  intros s t th x b Hth Hpc. unfold gstep, step_thread. rewrite Hth, Hpc.
+  destruct (Nat.ltb_spec (tk_ticket x) (qhead s + cap s)); split; intro; try discriminate; try lia; reflexivity.
+Qed.
+
+Definition InvB (s : st) : Prop := forall j x, nth_error (qall s) j = Some (Some x) -> (j < qhead s + cap s)%nat.
+
+Lemma invB_init : forall bits progs, InvB (init bits progs).
+Proof. intros bits progs j x H. destruct j; discriminate H. Qed.
+
+Lemma nth_app_some : forall A (l : list (option A)) j x, nth_error (l ++ [None]) j = Some (Some x) -> nth_error l j = Some (Some x).
+Proof.
+  intros A l j x H. destruct (Nat.lt_ge_cases j (length l)); [rewrite nth_error_app1 in H; assumption|].
+  rewrite nth_error_app2 in H by assumption. destruct (j - length l)%nat as [|[|]]; discriminate.
+Qed.
+
+Lemma invB_step : forall s t s', InvB s -> gstep kc s t = Some s' -> InvB s'.
+Proof.
+  intros s t s' B H j x Hj. unfold InvB in B.
+  step_cases H; try use_consume s; unfold cap in *; simp; try (apply B; assumption); try (apply nth_app_some in Hj; auto).
+  all: try (revert Hj; rewrite nth_error_lookup; destruct (Nat.eqb_spec j (tk_ticket x0)) as [->|]; intro Hj;
+            [apply Nat.ltb_lt; assumption | apply B in Hj; assumption]; fail).
+  all: specialize (B _ _ Hj); lia.
+Qed.
+
+Lemma invB_reach : forall bits progs s, Reach kc bits progs s -> InvB s.
+Proof. intros bits progs s R. eapply inv_reachable; eauto using invB_init, invB_step. Qed.
+
+(* the pop index never moves back: a pusher that has become enabled stays enabled *)
+Lemma qhead_mono : forall s t s', gstep kc s t = Some s' -> (qhead s <= qhead s')%nat /\ qbits s' = qbits s.
+Proof. intros s t s' H. step_cases H; try use_consume s; simp; split; try reflexivity; lia. Qed.
+End Proofs.
+
+(* ======================================================================================== *)
+(* theorems in the form Properties_C10.v states them                                         *)
+(* ======================================================================================== *)
+Theorem gc_never_early : forall kc bits progs s, Reach kc bits progs s -> early s = false.
+Proof. intros kc bits progs s R. exact (a_early _ (invA_reach kc _ _ _ R)). Qed.
+
+Theorem gc_blocks_iff_full : forall kc s t th x b, nth_error (threads s) t = Some th -> tpc th = PPublish x b ->
+  (gstep kc s t = None <-> (qhead s + cap s <= tk_ticket x)%nat).
+Proof. exact publish_enabled_iff. Qed.
+
+Theorem gc_queue_bounded : forall kc bits progs s, Reach kc bits progs s ->
+  forall j x, nth_error (qall s) j = Some (Some x) -> (j < qhead s + cap s)%nat.
+Proof. intros kc bits progs s R. exact (invB_reach kc _ _ _ R). Qed.
+
+Theorem gc_resumes : forall kc s t th x b sch, nth_error (threads s) t = Some th -> tpc th = PPublish x b ->
+  (tk_ticket x < qhead s + cap s)%nat ->
+  (tk_ticket x < qhead (run st (gstep kc) s sch) + cap (run st (gstep kc) s sch))%nat.
+Proof.
+  intros kc s t th x b sch _ _. revert s. induction sch as [|u r IH]; intros s H; cbn [run]; [assumption|].
+  apply IH. unfold step_or_stay. destruct (gstep kc s u) as [s'|] eqn:E; [|assumption].
+  destruct (qhead_mono kc _ _ _ E) as [Q B]. unfold cap in *. rewrite B. lia.
+Qed.
+
+(* ---- the current source: stop() with a region open (finding F2), and retire() racing with stop() ---- *)
+Definition f2_progs : list (list op) := [[OStart; ORetire; OStop]; [OLock; OUnlock]].
+Definition f2_sched : list nat := [1;1; 0;0;0;0;0;0; 2;2;2;2;2;2;2;2; 0; 1]%nat.
+Definition race_progs : list (list op) := [[OStart; OStop]; [ORetire]].
+Definition race_sched : list nat := [0; 1; 0; 1; 0; 1; 2;2;2;2;2;2;2;2;2; 0]%nat.
+
+Lemma f2_single_stop : single_stop f2_progs.
+Proof.
+  intros t1 p1 i1 t2 p2 i2 H1 H2 H3 H4.
+  destruct t1 as [|[|[|]]]; cbn in H1; try discriminate; injection H1 as <-;
+  destruct i1 as [|[|[|[|]]]]; cbn in H2; try discriminate;
+  destruct t2 as [|[|[|]]]; cbn in H3; try discriminate; injection H3 as <-;
+  destruct i2 as [|[|[|[|]]]]; cbn in H4; try discriminate; auto.
+Qed.
+
+Theorem gc_all_before_stop_refuted :
+  exists bits progs s, single_stop progs /\ Reach src_kc bits progs s /\ gver s < STOP_EPOCH /\ all_done s = true /\ ~ stop_complete s.
+Proof.
+  exists 1%nat, f2_progs, (run st step (init 1 f2_progs) f2_sched).
+  split; [exact f2_single_stop|]. split; [exists f2_sched; reflexivity|]. split; [vm_compute; reflexivity|].
+  split; [vm_compute; reflexivity|]. intro C.
+  assert (X : In {| tk_id := (0%nat, 1%nat); tk_epoch := 1; tk_blk := [(1%nat, 0%nat)]; tk_ticket := 0 |}
+                 (map fst (calls (run st step (init 1 f2_progs) f2_sched)))).
+  { eapply (C 0%nat _ 1%nat 0%nat _ _ 0%nat); [lia | vm_compute; reflexivity | vm_compute; reflexivity]. }
+  vm_compute in X. exact X.
+  Unshelve. 2: vm_compute; reflexivity. vm_compute. auto.
+Qed.
+
+Theorem gc_retire_racing_stop_refuted :
+  exists bits progs s x, no_regions progs /\ Reach src_kc bits progs s /\ all_done s = true /\ coll_quiet s = true /\
+    In (Some x) (qall s) /\ is_marker x = false /\ ~ In x (map fst (calls s)) /\ In x (gone s).
+Proof.
+  exists 1%nat, race_progs, (run st step (init 1 race_progs) race_sched),
+         {| tk_id := (1%nat, 0%nat); tk_epoch := 1; tk_blk := []; tk_ticket := 1 |}.
+  split. { intros p [<-|[<-|[]]] H; cbn in H; intuition discriminate. }
+  split; [exists race_sched; reflexivity|].
+  repeat split; try (vm_compute; reflexivity); try (vm_compute; tauto).
+  vm_compute. tauto.
+Qed.
